@@ -73,7 +73,7 @@ finally:
 meta["detected_by"] = [c for c, r in meta["results"].items() if r["exit"] == 1]
 
 # 3. record
-dst = os.path.join("/verif/seeded", "%s-%s" % (prop, mname))
+dst = os.path.join("/verif/seeded", "%s-%s%s" % (prop, os.environ.get("ROUND", ""), mname))
 os.makedirs(dst, exist_ok=True)
 for f in ("patch.diff", "demo.sd", "demo.expected", "demo.mutant", "notes.md"):
     if os.path.exists(os.path.join(md, f)):
